@@ -460,8 +460,9 @@ def init_info(cname, cls):
                 raise U("%s.__init__: attribute %s assigned twice" % (cname, a), s)
             if isinstance(v, ast.Name) and v.id in names:
                 attr_from[a] = ("param", v.id)
-            elif isinstance(v, ast.Call) and call_name(v.func) == "np.asarray" and len(v.args) == 1 \
+            elif isinstance(v, ast.Call) and call_name(v.func) in ("np.asarray", "np.array") and len(v.args) == 1 \
                     and isinstance(v.args[0], ast.Name) and v.args[0].id in names and not v.keywords:
+                # the parameter as an array, converted without or with a copy: the same value
                 attr_from[a] = ("param", v.args[0].id)
             elif isinstance(v, ast.List) and not v.elts:
                 attr_from[a] = ("nil",)
@@ -469,10 +470,10 @@ def init_info(cname, cls):
                 raise U("%s.__init__: assignment to self.%s" % (cname, a), s)
             continue
         if isinstance(s, ast.Assign) and len(s.targets) == 1 and isinstance(s.targets[0], ast.Name) \
-                and s.targets[0].id in names and isinstance(s.value, ast.Call) and call_name(s.value.func) == "np.asarray" \
+                and s.targets[0].id in names and isinstance(s.value, ast.Call) and call_name(s.value.func) in ("np.asarray", "np.array") \
                 and len(s.value.args) == 1 and isinstance(s.value.args[0], ast.Name) \
                 and s.value.args[0].id == s.targets[0].id and not s.value.keywords:
-            continue                      # p = np.asarray(p)
+            continue                      # p = np.asarray(p) / p = np.array(p) (own copy)
         if isinstance(s, ast.If) and not s.orelse and len(s.body) == 1 and isinstance(s.body[0], ast.Raise):
             # validation; the only one with meaning for the model is the shape check of a vector parameter
             t = s.test
@@ -811,7 +812,14 @@ def extract():
         if nm in TARGET_ONLY:
             am = const_return(nm, find_func(cls, "as_matrix"), "as_matrix")
             mattr = [a for a, k in info.pinfo.items() if k[0] == "matrix"]
-            if len(mattr) != 1 or attr_of_self(am) != mattr[0]:
+            # the stored matrix itself or a copy of it: self.m | self.m.copy() | np.copy(self.m) | np.array(self.m)
+            stored = am
+            if isinstance(am, ast.Call) and not am.keywords:
+                if isinstance(am.func, ast.Attribute) and am.func.attr == "copy" and not am.args and attr_of_self(am.func.value) is not None:
+                    stored = am.func.value
+                elif call_name(am.func) in ("np.copy", "np.array") and len(am.args) == 1:
+                    stored = am.args[0]
+            if len(mattr) != 1 or attr_of_self(stored) != mattr[0]:
                 raise U("%s.as_matrix does not return the stored matrix" % nm)
             d["target_only"] = True
             out["classes"][nm] = d
